@@ -1,0 +1,75 @@
+//! Verification hooks for osu!mania internals (`--cfg rosu_pp_verif`).
+
+use rosu_map::section::general::GameMode;
+
+use crate::{
+    model::{beatmap::Beatmap, mode::ConvertError},
+    Difficulty,
+};
+
+use super::{
+    convert,
+    object::{ManiaObject, ObjectParams},
+};
+
+/// Per-object summary of what the counting code reads.
+#[derive(Copy, Clone, Debug, PartialEq)]
+pub struct ManiaObjectSummary {
+    pub is_circle: bool,
+    /// Combo added by this object on the one-shot path.
+    pub combo: u32,
+    /// Hold notes added by this object on the one-shot path.
+    pub hold_notes: u32,
+    pub column: usize,
+    pub start_time: f64,
+    pub end_time: f64,
+}
+
+/// The map that mania calculations operate on: converted, then HoldOff,
+/// Invert and Random applied according to the mods.
+pub fn prepared_map(difficulty: &Difficulty, map: &Beatmap) -> Result<Beatmap, ConvertError> {
+    let mut map = map.convert_ref(GameMode::Mania, difficulty.get_mods())?;
+
+    if difficulty.get_mods().ho() {
+        convert::apply_hold_off_to_beatmap(map.to_mut());
+    }
+
+    if difficulty.get_mods().invert() {
+        convert::apply_invert_to_beatmap(map.to_mut());
+    }
+
+    if let Some(seed) = difficulty.get_mods().random_seed() {
+        convert::apply_random_to_beatmap(map.to_mut(), seed);
+    }
+
+    Ok(map.into_owned())
+}
+
+/// Summaries of the objects of a prepared mania map.
+pub fn object_summaries(map: &Beatmap) -> Vec<ManiaObjectSummary> {
+    let total_columns = map.cs.round_ties_even().max(1.0);
+    let mut params = ObjectParams::new(map);
+
+    map.hit_objects
+        .iter()
+        .map(|h| {
+            let combo_before = params.max_combo();
+            let holds_before = params.n_hold_notes();
+            let obj = ManiaObject::new(h, total_columns, &mut params);
+
+            ManiaObjectSummary {
+                is_circle: h.is_circle(),
+                combo: params.max_combo() - combo_before,
+                hold_notes: params.n_hold_notes() - holds_before,
+                column: obj.column,
+                start_time: obj.start_time,
+                end_time: obj.end_time,
+            }
+        })
+        .collect()
+}
+
+/// Column of an x-position.
+pub fn column(x: f32, total_columns: f32) -> usize {
+    ManiaObject::column(x, total_columns)
+}
